@@ -920,7 +920,9 @@ class _Run:
                     continue
                 fs = fs - {EOF}
                 s2, tokv = self.consume(st.with_la(1, fs), fs, e.lineno)
-                yield tokv, s2, (("consume", fs, e.lineno),)
+                ist = getattr(self, "istack", ())
+                site = ist[0][1] if ist else (e.lineno, e.col_offset)
+                yield tokv, s2, (("consume", fs, e.lineno, site),)
             return
         if what == "mark":
             marks = tuple(mk for mk in st.marks if mk[0] != self.cur_node) + ((self.cur_node, self.U.all, self.U.all, 0),)
@@ -1015,7 +1017,7 @@ class _Run:
                     env[p] = Val.UNK
             # run the helper to completion by a local work list (helpers are small and loop-free or simple loops)
             results = []
-            sub = _Inline(self, callee, State(s1.la, s1.envs + (env,), s1.marks), ev1, e.lineno)
+            sub = _Inline(self, callee, State(s1.la, s1.envs + (env,), s1.marks), ev1, (e.lineno, e.col_offset))
             for v, s2, ev2 in sub.run():
                 yield v, State(s2.la, s2.envs[:-1], s2.marks), ev2
             del results
